@@ -101,8 +101,9 @@ func chunkData(i, n int) []byte {
 
 type caseSpec struct {
 	size    int
-	pos     int  // which of the three chunks is affected
-	atStop  bool // chunks stay in memory and are saved at shutdown (instead of being spilled at Accept)
+	pos     int    // which of the three chunks is affected
+	mode    string // "" / "spill-at-accept": spilled at Accept; "save-at-shutdown": chunks stay in memory and are saved by the feeder at shutdown; "hand-back": the consumer holds them and hands them back at shutdown (saved by OnChunkLeftover)
+	maxBuf  int    // > 0: configured size limit of the queue in bytes (default 1 GiB)
 	plan    vfs.Plan
 	idKind  string // "" = plain
 	foreign string // extra file placed in the queue directory before the first generation ("", "zero", "badname", "subdir")
@@ -146,25 +147,51 @@ func listFiles(dir string) map[string][]byte {
 // gen1 runs the first generation: three chunks accepted, then Destroy. Returns when done or at the crash point.
 func gen1(root string, c caseSpec, snapshot string) genResult {
 	var r genResult
-	if c.atStop {
+	if c.mode == "save-at-shutdown" || c.mode == "hand-back" {
 		defs.BufferMaxNumChunksInMemory = 10
 	} else {
 		defs.BufferMaxNumChunksInMemory = 0
 	}
+	maxBuf := datasize.ByteSize(1 << 30)
+	if c.maxBuf > 0 {
+		maxBuf = datasize.ByteSize(c.maxBuf)
+	}
 	defs.BufferMaxNumChunksInQueue = 50
 	mf := promreg.NewMetricFactory("g1_", nil, nil)
 	res := vsched.Run(vsched.Options{Choose: choose0, MaxSteps: 20000}, func() {
-		cfg := hybridbuffer.Config{RootPath: filepath.Join(root, "buf"), MaxBufSize: datasize.ByteSize(1 << 30)}
+		cfg := hybridbuffer.Config{RootPath: filepath.Join(root, "buf"), MaxBufSize: maxBuf}
 		buf := cfg.NewBufferer(logger.Root(), "q1", matchChunkID, mf, false)
 		qdir := buf.(interface{ QueueDirPath() string }).QueueDirPath()
 		_ = qdir
 		buf.Start()
 		args := buf.RegisterNewConsumer()
-		// a consumer that takes nothing and finishes at stop
-		vsched.Go("consumer", func() {
-			vsched.Recv(args.InputClosed.Channel(), "consumer.wait-stop")
-			args.OnFinished()
-		})
+		if c.mode == "hand-back" {
+			// a consumer that takes every chunk offered, keeps it, and hands everything back when the input is closed
+			vsched.Go("consumer", func() {
+				var held []base.LogChunk
+				for {
+					sel := vsched.Select("consumer.select", false, vsched.RecvCase(args.InputChannel), vsched.RecvCase(args.InputClosed.Channel()))
+					if sel.Index == 1 {
+						break
+					}
+					chunk, ok := vsched.SelRecv2(&sel, args.InputChannel)
+					if !ok {
+						break
+					}
+					held = append(held, chunk)
+				}
+				for _, chunk := range held {
+					args.OnChunkLeftover(chunk)
+				}
+				args.OnFinished()
+			})
+		} else {
+			// a consumer that takes nothing and finishes at stop
+			vsched.Go("consumer", func() {
+				vsched.Recv(args.InputClosed.Channel(), "consumer.wait-stop")
+				args.OnFinished()
+			})
+		}
 		vfs.Begin(c.plan, func() {
 			if snapshot != "" {
 				exec.Command("cp", "-a", root+"/.", snapshot).Run()
@@ -300,9 +327,16 @@ func runCase(c caseSpec) (string, string) {
 		if c.plan.LimitBytes == 0 {
 			kind = "write-error"
 		}
+	} else if c.plan.FailOp == "close" && c.plan.CloseLosesData {
+		kind = "close-loses-data"
 	} else if c.plan.FailOp != "" {
 		kind = c.plan.FailOp + "-error"
+	} else if c.plan.ShortOnce > 0 || c.plan.MaxPerWrite > 0 {
+		kind = "short-then-ok"
+	} else if c.maxBuf > 0 {
+		kind = "space-limit"
 	}
+	missing := 0
 	for i := 0; i < 3; i++ {
 		id := chunkID(i)
 		want := chunkData(i, c.size)
@@ -314,6 +348,13 @@ func runCase(c caseSpec) (string, string) {
 			}
 			return fmt.Sprintf("%s-chunk-forwarded:%s", cls, kind), fmt.Sprintf("%s: after restart chunk %s was forwarded with %d bytes %q, produced %d bytes %q | syscalls: %s",
 				c.desc, id, len(got), got, len(want), want, vfs.Describe(g1.log))
+		}
+		if c.maxBuf > 0 {
+			// configured size limit smaller than the three chunks: whichever chunk does not fit is not forwarded and accounted
+			if !wasOffered {
+				missing++
+			}
+			continue
 		}
 		if i != c.pos || (c.plan.File == "") {
 			if c.plan.Crash && i > c.pos {
@@ -327,11 +368,23 @@ func runCase(c caseSpec) (string, string) {
 		// the affected chunk: intact, or not forwarded and accounted (dropped / corrupt / io error), or — after a crash —
 		// never acknowledged as saved
 		if !wasOffered && !c.plan.Crash {
-			if g1.dropped+g2.dropped+g1.ioErrs+g2.ioErrs == 0 {
-				return "lost-unaccounted:" + kind, fmt.Sprintf("%s: chunk %s was not forwarded after restart and no drop / io error was counted (gen1 dropped=%d io=%d, gen2 dropped=%d io=%d) | syscalls: %s",
+			// "accounted as dropped or corrupt": the dropped-chunk counter, not merely an I/O error count
+			if g1.dropped+g2.dropped == 0 {
+				return "lost-unaccounted:" + kind, fmt.Sprintf("%s: chunk %s was not forwarded after restart and not counted as dropped (gen1 dropped=%d io-errors=%d, gen2 dropped=%d io-errors=%d) | syscalls: %s",
 					c.desc, id, g1.dropped, g1.ioErrs, g2.dropped, g2.ioErrs, vfs.Describe(g1.log))
 			}
 		}
+	}
+	if c.maxBuf > 0 {
+		if missing != 1 {
+			return "space-limit:wrong-number-of-chunks-kept", fmt.Sprintf("%s: size limit %d bytes for three chunks of %d bytes: %d chunks were not recovered after restart (offered: %v), expected exactly one", c.desc, c.maxBuf, c.size, missing, order)
+		}
+		if g1.dropped+g2.dropped != missing {
+			return "lost-unaccounted:" + kind, fmt.Sprintf("%s: %d chunk did not fit the size limit and was not forwarded, dropped_chunks_total gen1=%d gen2=%d", c.desc, missing, g1.dropped, g2.dropped)
+		}
+	}
+	if strings.HasPrefix(c.foreign, "zero@") && g2.dropped < 1 {
+		return "lost-unaccounted:zero-length-chunk-file", fmt.Sprintf("%s: a zero-length file under a chunk name was found at startup, not forwarded, and not counted as dropped / corrupt (gen2 dropped=%d)", c.desc, g2.dropped)
 	}
 	for id := range offered {
 		known := false
@@ -351,6 +404,303 @@ func runCase(c caseSpec) (string, string) {
 	return "", ""
 }
 
+// ---------------------------------------------------------------------------------------------------------------
+// root level: several queue directories under one root, as the orchestrator finds them at startup
+
+var rootQueues = []string{"qa", "qb", "qc"}
+
+func rootChunkID(q int) string   { return fmt.Sprintf("%04d.ch", q+1) }
+func rootChunkData(q int) []byte { return chunkData(q, 4) }
+func rootMatch(id string) bool   { return strings.HasSuffix(id, ".ch") }
+func rootCfg(root string) hybridbuffer.Config {
+	return hybridbuffer.Config{RootPath: filepath.Join(root, "buf"), MaxBufSize: datasize.ByteSize(1 << 30)}
+}
+
+// rootGenA: every queue spills one chunk and is shut down.
+func rootGenA(root string) (string, string) {
+	defs.BufferMaxNumChunksInMemory = 0
+	defs.BufferMaxNumChunksInQueue = 50
+	mf := promreg.NewMetricFactory("ra_", nil, nil)
+	res := vsched.Run(vsched.Options{Choose: choose0, MaxSteps: 20000}, func() {
+		cfg := rootCfg(root)
+		for q, id := range rootQueues {
+			buf := cfg.NewBufferer(logger.Root(), id, rootMatch, mf.AddOrGetPrefix(id+"_", nil, nil), false)
+			buf.Start()
+			args := buf.RegisterNewConsumer()
+			vsched.Go("consumer", func() {
+				vsched.Recv(args.InputClosed.Channel(), "consumer.wait-stop")
+				args.OnFinished()
+			})
+			buf.Accept(base.LogChunk{ID: rootChunkID(q), Data: rootChunkData(q)})
+			buf.Destroy()
+			vsched.Recv(buf.Stopped().Channel(), "driver.wait-stopped")
+		}
+	})
+	return res.Status, res.Detail
+}
+
+// rootGenB: the pipeline of one queue starts again on its existing directory (NewBufferer rewrites the directory's
+// bookkeeping) under a plan; returns the syscall log.
+func rootGenB(root string, q int, plan vfs.Plan, snapshot string) (string, string, []vfs.Call) {
+	mf := promreg.NewMetricFactory("rb_", nil, nil)
+	res := vsched.Run(vsched.Options{Choose: choose0, MaxSteps: 20000}, func() {
+		cfg := rootCfg(root)
+		vfs.Begin(plan, func() {
+			if snapshot != "" {
+				exec.Command("cp", "-a", root+"/.", snapshot).Run()
+			}
+		})
+		buf := cfg.NewBufferer(logger.Root(), rootQueues[q], rootMatch, mf, false)
+		buf.Start()
+		args := buf.RegisterNewConsumer()
+		vsched.Go("consumer", func() {
+			vsched.Recv(args.InputClosed.Channel(), "consumer.wait-stop")
+			args.OnFinished()
+		})
+		buf.Destroy()
+		vsched.Recv(buf.Stopped().Channel(), "driver.wait-stopped")
+	})
+	log := vfs.End()
+	return res.Status, res.Detail, log
+}
+
+// rootGenC: startup as the orchestrator does it: list the queues that hold chunks, start a pipeline buffer for each, drain.
+func rootGenC(root string) (status, detail string, ids []string, offered map[string][]byte) {
+	offered = map[string][]byte{}
+	defs.BufferMaxNumChunksInMemory = 2
+	mf := promreg.NewMetricFactory("rc_", nil, nil)
+	res := vsched.Run(vsched.Options{Choose: choose0, MaxSteps: 20000}, func() {
+		cfg := rootCfg(root)
+		ids = cfg.ListBufferIDs(logger.Root(), rootMatch, mf.AddOrGetPrefix("recovery_", nil, nil))
+		for i, id := range ids {
+			buf := cfg.NewBufferer(logger.Root(), id, rootMatch, mf.AddOrGetPrefix(fmt.Sprintf("q%d_", i), nil, nil), false)
+			buf.Start()
+			args := buf.RegisterNewConsumer()
+			vsched.Go("consumer", func() {
+				for {
+					sel := vsched.Select("consumer.select", false, vsched.RecvCase(args.InputChannel), vsched.RecvCase(args.InputClosed.Channel()))
+					if sel.Index == 1 {
+						break
+					}
+					chunk, ok := vsched.SelRecv2(&sel, args.InputChannel)
+					if !ok {
+						break
+					}
+					offered[id+"/"+chunk.ID] = append([]byte(nil), chunk.Data...)
+					args.OnChunkConsumed(chunk)
+				}
+				args.OnFinished()
+			})
+			vsched.Idle()
+			buf.Destroy()
+			vsched.Recv(buf.Stopped().Channel(), "driver.wait-stopped")
+		}
+	})
+	return res.Status, res.Detail, ids, offered
+}
+
+func queueDirOf(root, id string) string {
+	ents, _ := os.ReadDir(filepath.Join(root, "buf"))
+	for _, e := range ents {
+		if e.IsDir() && strings.HasPrefix(e.Name(), id+".") {
+			return filepath.Join(root, "buf", e.Name())
+		}
+	}
+	return ""
+}
+
+type rootCase struct {
+	umask   int
+	damage  string // "", "id-empty", "id-missing", "id-dir", "foreign-file", "foreign-symlink", "foreign-dir"
+	at      int    // queue index (damage of a queue) or 0 = sorts first / 1 = sorts last (foreign root entries)
+	restart int    // >= 0: that queue's pipeline starts again under plan (generation B)
+	plan    vfs.Plan
+	desc    string
+}
+
+func runRootCase(c rootCase) (string, string) {
+	logs.Reset()
+	logs.Echo = *flagLogs
+	old := unix.Umask(c.umask)
+	defer unix.Umask(old)
+	root := hutil.ScratchRoot("crashfs-root")
+	defer os.RemoveAll(root)
+	if st, d := rootGenA(root); st != "ok" {
+		return "root:genA-" + st, c.desc + ": " + firstLines(d, 4)
+	}
+	recoverRoot := root
+	required := []bool{true, true, true} // queues whose chunk must be recovered at startup
+	var log []vfs.Call
+	if c.restart >= 0 {
+		snapshot := ""
+		if c.plan.Crash {
+			snapshot = root + "-snap"
+			defer os.RemoveAll(snapshot)
+		}
+		st, d, l := rootGenB(root, c.restart, c.plan, snapshot)
+		log = l
+		crashed := vfs.HasCrashed()
+		switch {
+		case c.plan.Crash && crashed:
+			recoverRoot = snapshot
+		case c.plan.Crash && !crashed:
+			return "", ""
+		case st != "ok":
+			return "root:genB-" + st, c.desc + ": " + firstLines(d, 4)
+		}
+	}
+	bufRoot := filepath.Join(recoverRoot, "buf")
+	switch c.damage {
+	case "id-empty":
+		// placed by hand (an operator, another tool): only the OTHER queues are required
+		os.WriteFile(filepath.Join(queueDirOf(recoverRoot, rootQueues[c.at]), ".id"), nil, 0o644)
+		required[c.at] = false
+	case "id-missing":
+		os.Remove(filepath.Join(queueDirOf(recoverRoot, rootQueues[c.at]), ".id"))
+		required[c.at] = false
+	case "id-dir":
+		p := filepath.Join(queueDirOf(recoverRoot, rootQueues[c.at]), ".id")
+		os.Remove(p)
+		os.Mkdir(p, 0o755)
+		required[c.at] = false
+	case "foreign-file", "foreign-symlink", "foreign-dir":
+		name := "000-first"
+		if c.at == 1 {
+			name = "zzz-last"
+		}
+		switch c.damage {
+		case "foreign-file":
+			os.WriteFile(filepath.Join(bufRoot, name), []byte("not a queue"), 0o644)
+		case "foreign-symlink":
+			os.Symlink(filepath.Join(bufRoot, "nowhere"), filepath.Join(bufRoot, name))
+		case "foreign-dir":
+			os.Mkdir(filepath.Join(bufRoot, name), 0o755) // e.g. lost+found: a directory without .id
+		}
+	}
+	st, d, ids, offered := rootGenC(recoverRoot)
+	if st != "ok" {
+		return "root:startup-" + st, fmt.Sprintf("%s: startup ended with %s: %s", c.desc, st, firstLines(d, 6))
+	}
+	for q, id := range rootQueues {
+		key := id + "/" + rootChunkID(q)
+		got, ok := offered[key]
+		if ok && string(got) != string(rootChunkData(q)) {
+			return "root:altered-chunk-forwarded", fmt.Sprintf("%s: chunk of queue %s forwarded as %q, produced %q", c.desc, id, got, rootChunkData(q))
+		}
+		if !ok && required[q] {
+			what := "queue-not-recovered-at-startup"
+			switch {
+			case c.restart == q:
+				what = "queue-not-recovered-after-interrupted-restart"
+			case c.damage != "":
+				what = "other-queue-blocked-by-damaged-entry"
+			case c.umask != 0o022:
+				what = "queue-not-recovered-at-startup:umask"
+			}
+			return "root:" + what, fmt.Sprintf("%s: the chunk of queue %s is on disk but the startup listing returned %v and it was not recovered (umask %03o) | syscalls of the restart: %s", c.desc, id, ids, c.umask, vfs.Describe(log))
+		}
+	}
+	for k := range offered {
+		known := false
+		for q, id := range rootQueues {
+			if k == id+"/"+rootChunkID(q) {
+				known = true
+			}
+		}
+		if !known {
+			return "root:foreign-file-forwarded", fmt.Sprintf("%s: %s was forwarded as a chunk", c.desc, k)
+		}
+	}
+	if line := logs.FirstBugLine(); line != "" {
+		i := strings.Index(line, "BUG")
+		return "bug-log:" + hutil.KeyFrom(line[i:], 40), fmt.Sprintf("%s: agent logged: %s", c.desc, line)
+	}
+	return "", ""
+}
+
+// rootRestartOps: the syscalls touching the .id file when a pipeline starts again on an existing queue directory
+func rootRestartOps() []vfs.Call {
+	root := hutil.ScratchRoot("crashfs-root")
+	defer os.RemoveAll(root)
+	rootGenA(root)
+	_, _, log := rootGenB(root, 1, vfs.Plan{File: ".id", LimitBytes: -1}, "")
+	var out []vfs.Call
+	for _, c := range log {
+		if strings.HasSuffix(c.Name, ".id") || strings.Contains(c.Name, ".id.") || strings.Contains(c.Name, ".id->") {
+			out = append(out, c)
+		}
+	}
+	return out
+}
+
+func enumerateRoot(ctx *seq.Ctx) {
+	for _, umask := range []int{0o022, 0o027, 0o077} {
+		u := fmt.Sprintf("root/umask%03o", umask)
+		ctx.Group("root/undamaged")
+		ctx.Case(u+"/undamaged", true, "", func() (string, string) {
+			return runRootCase(rootCase{umask: umask, restart: -1, desc: u + "/undamaged"})
+		})
+		if umask != 0o022 && !ctx.Thorough() {
+			continue
+		}
+		ctx.Group("root/damaged-entry")
+		for _, dmg := range []string{"id-empty", "id-missing", "id-dir"} {
+			for at := 0; at < 3; at++ {
+				desc := fmt.Sprintf("%s/%s@%s", u, dmg, rootQueues[at])
+				ctx.Case(desc, true, "", func() (string, string) {
+					return runRootCase(rootCase{umask: umask, damage: dmg, at: at, restart: -1, desc: desc})
+				})
+			}
+		}
+		for _, dmg := range []string{"foreign-file", "foreign-symlink", "foreign-dir"} {
+			for at := 0; at < 2; at++ {
+				desc := fmt.Sprintf("%s/%s@%d", u, dmg, at)
+				ctx.Case(desc, true, "", func() (string, string) {
+					return runRootCase(rootCase{umask: umask, damage: dmg, at: at, restart: -1, desc: desc})
+				})
+			}
+		}
+	}
+	// a pipeline starts again on its existing queue directory and the process dies / the disk is full while the directory's
+	// bookkeeping is rewritten: every syscall boundary and every byte offset of that write
+	ops := rootRestartOps()
+	ctx.Group("root/interrupted-restart")
+	ctx.Case("root/restart/baseline", true, "", func() (string, string) {
+		writes := 0
+		for _, o := range ops {
+			if o.Op == "write" {
+				writes++
+			}
+		}
+		if writes == 0 {
+			return "seam-blind", fmt.Sprintf("the write of the queue directory's .id file is not observable through the syscall seam (ops: %s)", vfs.Describe(ops))
+		}
+		return runRootCase(rootCase{umask: 0o022, restart: 1, plan: vfs.Plan{LimitBytes: -1}, desc: "root/restart/baseline"})
+	})
+	for q := 0; q < 3; q++ {
+		for at := 0; at <= len(ops); at++ {
+			desc := fmt.Sprintf("root/restart-%s/crash-before-call%d", rootQueues[q], at)
+			ctx.Case(desc, at < len(ops), "", func() (string, string) {
+				return runRootCase(rootCase{umask: 0o022, restart: q, desc: desc, plan: vfs.Plan{File: ".id", LimitBytes: -1, Crash: true, CrashAt: at, CrashBytes: -1}})
+			})
+			if at < len(ops) && ops[at].Op == "write" {
+				for k := 0; k <= ops[at].N; k++ {
+					desc := fmt.Sprintf("root/restart-%s/crash-in-call%d-after-%dbytes", rootQueues[q], at, k)
+					ctx.Case(desc, true, "", func() (string, string) {
+						return runRootCase(rootCase{umask: 0o022, restart: q, desc: desc, plan: vfs.Plan{File: ".id", LimitBytes: -1, Crash: true, CrashAt: at, CrashBytes: k}})
+					})
+				}
+			}
+		}
+		for _, errno := range []unix.Errno{unix.ENOSPC, unix.EIO} {
+			desc := fmt.Sprintf("root/restart-%s/write-fails-%s", rootQueues[q], unix.ErrnoName(errno))
+			ctx.Case(desc, true, "", func() (string, string) {
+				return runRootCase(rootCase{umask: 0o022, restart: q, desc: desc, plan: vfs.Plan{File: ".id", LimitBytes: 0, LimitErrno: errno}})
+			})
+		}
+	}
+}
+
 func firstLines(s string, n int) string {
 	l := strings.Split(s, "\n")
 	if len(l) > n {
@@ -360,10 +710,10 @@ func firstLines(s string, n int) string {
 }
 
 // fileOpsBaseline runs a fault-free first generation and returns the syscalls touching the affected chunk's file.
-func fileOpsBaseline(size, pos int, atStop bool) []vfs.Call {
+func fileOpsBaseline(size, pos int, mode string) []vfs.Call {
 	root := hutil.ScratchRoot("crashfs")
 	defer os.RemoveAll(root)
-	g := gen1(root, caseSpec{size: size, pos: pos, atStop: atStop, plan: vfs.Plan{File: chunkID(pos), LimitBytes: -1}}, "")
+	g := gen1(root, caseSpec{size: size, pos: pos, mode: mode, plan: vfs.Plan{File: chunkID(pos), LimitBytes: -1}}, "")
 	var out []vfs.Call
 	for _, c := range g.log {
 		if strings.Contains(c.Name, chunkID(pos)) {
@@ -377,6 +727,7 @@ func enumerate(ctx *seq.Ctx) {
 	for _, kind := range []string{"plain", "ff", "dd"} {
 		enumerateKind(ctx, kind)
 	}
+	enumerateRoot(ctx)
 }
 
 func enumerateKind(ctx *seq.Ctx, kind string) {
@@ -386,9 +737,7 @@ func enumerateKind(ctx *seq.Ctx, kind string) {
 	if kind != "plain" {
 		pfx, ck = kind+":", kind
 	}
-	modes := []bool{false, true}
-	for _, atStop := range modes {
-		mode := "spill-at-accept"
+	for _, mode := range []string{"spill-at-accept", "save-at-shutdown", "hand-back"} {
 		sizes := []int{1, 2, 3, 5, 8}
 		if ctx.Thorough() {
 			sizes = []int{1, 2, 3, 4, 5, 8, 13}
@@ -398,18 +747,15 @@ func enumerateKind(ctx *seq.Ctx, kind string) {
 		} else if kind != "plain" {
 			sizes = []int{3}
 		}
-		if atStop {
-			mode = "save-at-shutdown"
-			if !ctx.Thorough() {
-				sizes = []int{3}
-			}
+		if mode != "spill-at-accept" && !ctx.Thorough() {
+			sizes = []int{3}
 		}
 		for _, size := range sizes {
 			for pos := 0; pos < 3; pos++ {
 				file := chunkID(pos)
 				base := fmt.Sprintf("%s%s/size%d/pos%d", pfx, mode, size, pos)
 				// the write path of this file in a fault-free run (deterministic; computed in every process)
-				ops := fileOpsBaseline(size, pos, atStop)
+				ops := fileOpsBaseline(size, pos, mode)
 				nWrite := 0
 				writeOps := 0
 				for i, o := range ops {
@@ -424,7 +770,7 @@ func enumerateKind(ctx *seq.Ctx, kind string) {
 					if writeOps == 0 {
 						return "seam-blind", fmt.Sprintf("%s: the chunk file write is not observable through the syscall seam (ops: %s)", base, vfs.Describe(ops))
 					}
-					return runCase(caseSpec{idKind: ck, size: size, pos: pos, atStop: atStop, plan: vfs.Plan{LimitBytes: -1}, desc: base + "/baseline"})
+					return runCase(caseSpec{idKind: ck, size: size, pos: pos, mode: mode, plan: vfs.Plan{LimitBytes: -1}, desc: base + "/baseline"})
 				})
 				// (a) space / size limit reached after k bytes
 				ctx.Group(pfx + mode + "/limit")
@@ -435,39 +781,83 @@ func enumerateKind(ctx *seq.Ctx, kind string) {
 						}
 						desc := fmt.Sprintf("%s/limit%d/%s", base, k, unix.ErrnoName(errno))
 						ctx.Case(desc, true, "", func() (string, string) {
-							return runCase(caseSpec{idKind: ck, size: size, pos: pos, atStop: atStop, desc: desc,
+							return runCase(caseSpec{idKind: ck, size: size, pos: pos, mode: mode, desc: desc,
 								plan: vfs.Plan{File: file, LimitBytes: k, LimitErrno: errno}})
 						})
 					}
 				}
 				// (b) error at open / close / rename / fsync
 				ctx.Group(pfx + mode + "/failop")
-				for _, op := range []string{"openat", "close", "renameat", "fsync"} {
+				for _, op := range []string{"openat", "close", "renameat", "fsync", "unlinkat"} {
 					desc := fmt.Sprintf("%s/fail-%s", base, op)
-					ctx.Case(desc, true, "", func() (string, string) {
-						return runCase(caseSpec{idKind: ck, size: size, pos: pos, atStop: atStop, desc: desc,
+					occurs := false
+					for _, o := range ops {
+						if o.Op == op {
+							occurs = true
+						}
+					}
+					// an operation the write path does not use (no fsync today) is enumerated for the day it appears, not counted
+					ctx.Case(desc, occurs, "", func() (string, string) {
+						return runCase(caseSpec{idKind: ck, size: size, pos: pos, mode: mode, desc: desc,
 							plan: vfs.Plan{File: file, LimitBytes: -1, FailOp: op, FailErrno: unix.EIO}})
+					})
+				}
+				// (b2) the close fails because buffered data could not be written: the file keeps only its first j bytes
+				ctx.Group(pfx + mode + "/close-loses-data")
+				for j := 0; j < size; j++ {
+					desc := fmt.Sprintf("%s/close-keeps-%d", base, j)
+					ctx.Case(desc, true, "", func() (string, string) {
+						return runCase(caseSpec{idKind: ck, size: size, pos: pos, mode: mode, desc: desc,
+							plan: vfs.Plan{File: file, LimitBytes: -1, FailOp: "close", FailErrno: unix.EIO, CloseLosesData: true, CloseKeeps: j}})
+					})
+				}
+				// (b3) short writes WITHOUT an error: the first write takes k bytes and the continuation succeeds; every write
+				// takes at most c bytes. The chunk must come back byte-identical (or be accounted).
+				ctx.Group(pfx + mode + "/short-then-ok")
+				for k := 1; k < size; k++ {
+					desc := fmt.Sprintf("%s/short-once-%d", base, k)
+					ctx.Case(desc, true, "", func() (string, string) {
+						return runCase(caseSpec{idKind: ck, size: size, pos: pos, mode: mode, desc: desc, plan: vfs.Plan{File: file, LimitBytes: -1, ShortOnce: k}})
+					})
+				}
+				for _, c := range []int{1, 2} {
+					if c >= size {
+						continue
+					}
+					desc := fmt.Sprintf("%s/max-per-write-%d", base, c)
+					ctx.Case(desc, true, "", func() (string, string) {
+						return runCase(caseSpec{idKind: ck, size: size, pos: pos, mode: mode, desc: desc, plan: vfs.Plan{File: file, LimitBytes: -1, MaxPerWrite: c}})
 					})
 				}
 				// (c) crash at every syscall boundary and after every k bytes of every write
 				ctx.Group(pfx + mode + "/crash")
 				for at := 0; at <= len(ops); at++ {
 					desc := fmt.Sprintf("%s/crash-before-call%d", base, at)
-					ctx.Case(desc, true, "", func() (string, string) {
-						return runCase(caseSpec{idKind: ck, size: size, pos: pos, atStop: atStop, desc: desc,
+					ctx.Case(desc, at < len(ops), "", func() (string, string) {
+						return runCase(caseSpec{idKind: ck, size: size, pos: pos, mode: mode, desc: desc,
 							plan: vfs.Plan{File: file, LimitBytes: -1, Crash: true, CrashAt: at, CrashBytes: -1}})
 					})
 					if at < len(ops) && ops[at].Op == "write" {
 						for k := 0; k <= ops[at].N; k++ {
 							desc := fmt.Sprintf("%s/crash-in-call%d-after-%dbytes", base, at, k)
 							ctx.Case(desc, true, "", func() (string, string) {
-								return runCase(caseSpec{idKind: ck, size: size, pos: pos, atStop: atStop, desc: desc,
+								return runCase(caseSpec{idKind: ck, size: size, pos: pos, mode: mode, desc: desc,
 									plan: vfs.Plan{File: file, LimitBytes: -1, Crash: true, CrashAt: at, CrashBytes: k}})
 							})
 						}
 					}
 				}
 			}
+		}
+	}
+	// (e) the configured size limit (no I/O error involved): three chunks against a limit of two
+	ctx.Group(pfx + "space-limit")
+	for _, mode := range []string{"spill-at-accept", "save-at-shutdown", "hand-back"} {
+		for _, size := range []int{1, 3} {
+			desc := fmt.Sprintf("%sspace-limit/%s/size%d", pfx, mode, size)
+			ctx.Case(desc, true, "", func() (string, string) {
+				return runCase(caseSpec{idKind: ck, size: size, pos: 2, mode: mode, maxBuf: 2 * size, desc: desc, plan: vfs.Plan{LimitBytes: -1}})
+			})
 		}
 	}
 	// (d) damaged or foreign files found at startup never block recovery of the others
